@@ -16,10 +16,11 @@ Lemma quorum_of_pos ws : 0 < ElectionSpec.quorum_of ws.
 Proof. unfold ElectionSpec.quorum_of. lia. Qed.
 
 Lemma id_fresh_not_temp K x n : n <= K -> id_fresh K x -> ~ is_temp n x.
-Proof. intros L F (ep & lm & c & t & Bc & S & E). apply F. exists ep, lm, c, t. split; [lia | auto]. Qed.
+Proof. intros L F (ep0 & lm & c & t & Bc & S & E). apply F. exists ep0, lm, c, t. split; [lia | auto]. Qed.
 
 Section Sim.
 Variable cap : nat.
+Variable ep : N.
 Variable lam : fev -> N.
 Variable vals : list (N * N).
 Hypothesis Hvals : vals_ok vals.
@@ -28,7 +29,7 @@ Notation ws := (map snd vals).
 Notation nv := (length vals).
 Notation q := (ElectionSpec.quorum_of ws).
 Notation fcn := (fc_n ws q).
-Notation ae := (to_aevent lam vals).
+Notation ae := (to_aevent ep lam vals).
 Notation rts := (roots_at node nd_fr nd_spf).
 
 Lemma vals_nodup : NoDup (v_ids vals).
@@ -39,11 +40,15 @@ Proof. apply v_quorum_eq. apply Hvals. Qed.
 (* the root-table entry of node n for frame f *)
 Definition slot (n : node) (f : N) : root := (f, vid vals (nd_cr n), nd_id n).
 
-(* cached forkless-cause answers: about a temporary event of an earlier Build, or the reference's
-   answer on two nodes of the table *)
-Definition cache_inv (k : N) (st : lstate) (Ta Tb : list node) : Prop :=
+(* keys that may carry stale answers: temporary ids of earlier Builds (counter <= c) and the ids J of
+   events whose Process was rejected *)
+Definition stale (J : N -> Prop) (c : N) : N -> Prop := fun a => is_temp c a \/ J a.
+
+(* cached forkless-cause answers: under a possibly stale key k (never queried again for a node of the
+   table), or the reference's answer on two nodes of the table *)
+Definition cache_inv (k : N -> Prop) (st : lstate) (Ta Tb : list node) : Prop :=
   forall a b r, cache_get (a, b) (l_fcc st) = Some r ->
-    is_temp k a \/
+    k a \/
     exists na nb, In na Ta /\ In nb Tb /\ nd_id na = a /\ nd_id nb = b /\ r = fcn na nb.
 
 (* everything but the cache and the election.  T / Dr: the table of the indexed events; R: the nodes
@@ -52,7 +57,7 @@ Definition cache_inv (k : N) (st : lstate) (Ta Tb : list node) : Prop :=
 Record Core (st : lstate) (es : estore) (T : list node) (Dr : list fev) (R : list node) : Prop := {
   co_wf : wfTD vals T Dr;
   co_vals : l_vals st = vals;
-  co_epoch : l_epoch st = 1;
+  co_epoch : l_epoch st = ep;
   co_vinv : vinv nv (l_idx st);
   co_evs : evs (l_idx st) = E_of Dr;
   co_es : forall e, In e Dr -> (exists n, In n R /\ nd_id n = eid (fe e)) -> get_event es (eid (fe e)) = Some (ae e);
@@ -107,7 +112,7 @@ Qed.
 
 (* ---------- Index.ForklessCause through the LRU ---------- *)
 Lemma fc_cached_sim st es T Dr R k Ta Tb na nb : Core st es T Dr R -> cache_inv k st Ta Tb ->
-  incl Ta T -> incl Tb T -> In na Ta -> In nb Tb -> ~ is_temp k (nd_id na) ->
+  incl Ta T -> incl Tb T -> In na Ta -> In nb Tb -> ~ k (nd_id na) ->
   exists c', fc_cached cap st (nd_id na) (nd_id nb) = (fcn na nb, set_fcc st c') /\ cache_inv k (set_fcc st c') Ta Tb.
 Proof.
   intros C CI Sa Sb Ha Hb NT. unfold fc_cached.
@@ -137,7 +142,7 @@ Definition roots_for (T : list node) (frs : list root) (ms : list node) : Prop :
 
 (* observedRoots *)
 Lemma observed_loop_sim st es T Dr R k Ta Tb na : Core st es T Dr R -> incl Ta T -> incl Tb T -> In na Ta ->
-  ~ is_temp k (nd_id na) ->
+  ~ k (nd_id na) ->
   forall frs ms, roots_for Tb frs ms -> forall st0 acc, (exists c0, st0 = set_fcc st c0) -> cache_inv k st0 Ta Tb ->
   exists c' obs, observed_loop cap st0 (nd_id na) frs acc = (rev acc ++ obs, set_fcc st c') /\
                  cache_inv k (set_fcc st c') Ta Tb /\
@@ -158,7 +163,7 @@ Qed.
 
 (* forklessCausedByQuorumOn: the verdict is the cache-free one *)
 Lemma fcq_loop_sim st es T Dr R k Ta Tb na : Core st es T Dr R -> incl Ta T -> incl Tb T -> In na Ta ->
-  ~ is_temp k (nd_id na) ->
+  ~ k (nd_id na) ->
   forall frs ms, roots_for Tb frs ms -> forall st0 c, (exists c0, st0 = set_fcc st c0) -> cache_inv k st0 Ta Tb ->
   exists c', fcq_loop cap st0 (nd_id na) frs c = (fcq_pure vals (l_idx st) (nd_id na) frs c, set_fcc st c') /\
              cache_inv k (set_fcc st c') Ta Tb.
@@ -187,7 +192,7 @@ Qed.
 
 (* observedRoots over the stored roots of a frame: exactly the entries of the observed nodes, in table order *)
 Lemma observed_loop_map st es T Dr R k Ta Tb na g : Core st es T Dr R -> incl Ta T -> incl Tb T -> In na Ta ->
-  ~ is_temp k (nd_id na) ->
+  ~ k (nd_id na) ->
   forall ms, (forall m, In m ms -> In m Tb) -> forall st0 acc, (exists c0, st0 = set_fcc st c0) -> cache_inv k st0 Ta Tb ->
   exists c', observed_loop cap st0 (nd_id na) (map (fun m => slot m g) ms) acc =
                (rev acc ++ map (fun m => slot m g) (filter (fcn na) ms), set_fcc st c') /\
